@@ -220,6 +220,20 @@ CLAIMS["C20"] = dict(
     technique="static analysis: path-count rule on the node statements, effect analysis, match exhaustiveness against tys.Kind",
     design="DESIGN.md section 5, C20")
 
+CLAIMS["C12"] = dict(
+    text="Export conditions decided in the exporter's code shape: mangled symbols take name and node from the same operation "
+         "(def-use through the match binding), so calls/loads name an existing definition; order hints are produced per order edge "
+         "between non-boundary siblings and reach model.Region(meta=...); no exported port list ranges over the store's connection "
+         "counters -- counts come from the signature table _num_model_ports (control ports for blocks, instantiation for calls); "
+         "the CFG region's source is the entry block's input port; every operation class has an unguarded, unshadowed arm or a "
+         "region exporter and regions export every child in order; the Python model dataclasses declare exactly the attributes and "
+         "constructor arity that hugr-model/src/v0/ast/python.rs reads (28 classes, table scanned from Rust); union-find over all "
+         "links, metadata for every key and node kind, order keys; opaque and resolved extension ops export alike.",
+    note="Not decided: well-scopedness of the exported module for every program (needs the Rust importer, not built offline). "
+         "Reference behaviour cited from hugr-core/src/export.rs.",
+    technique="static analysis: def-use provenance, dead-store / taint rules on port counts, dispatch exhaustiveness, table agreement with the Rust binding",
+    design="DESIGN.md section 5, C12")
+
 NOT_APPLICABLE_REASON: dict[str, str] = {}
 
 
